@@ -25,6 +25,11 @@ def run(ctx):
     rws = ctx.path("cov_rows.ndjson")
     vlib.kvh(["trace", "coverage", ctx.seed, runs, ctx.rundir, maxrecs, "rows"], out=rws)
     vlib.validate_trace(ctx, "CoverageTrace", rws, "rows of kmers.vectors recomputed by the specification", "creset")
+    # multiplicities beyond 2^16 / 2^17, a 276 000-base record, 100 000 bins: records given by run lengths (RunLength; its lemma
+    # RleAgrees is model-checked by C04)
+    bg = ctx.path("covbig.ndjson")
+    vlib.kvh(["trace", "covbig", ctx.seed, ctx.rundir], out=bg)
+    vlib.validate_trace(ctx, "FactsTrace", bg, "rows of records given by run lengths (multiplicity 210 000, 100 000 bins), k=4,12,31,7", "covbig")
     with open(rws) as f:
         e = json.loads(f.readline())
         e["recs"] = e["recs"][:2]
